@@ -121,7 +121,9 @@ Definition w_readline (fixed : bool) := w_read_with fixed src_readline.
 
 (* repaired readlines(): the bounded readline() in a loop.  Every iteration that continues
    consumed at least one byte of the source, so fuel = S (bytes left in the source) is never
-   exhausted (Proofs: readlines_fuel_irrelevant). *)
+   exhausted (same argument as ProofsW.exhaust_loop_done, which is proved for exhaust();
+   for readlines it is validated by the correspondence only -- the safety theorems hold for
+   any fuel). *)
 Fixpoint w_readlines_loop (fuel : nat) (hint : option Z) (total : Z) (st : wst)
   : list bytes * wst :=
   match fuel with
